@@ -26,10 +26,11 @@ NTRACE = 4
 
 
 def consts(apis, n=1, kinds=("eof", "local_close"), fix=True, omit="none", modes=("blocking", "timed"), nopoll=(),
-           test_outside=False, role="server", wake_only_server=False, **kw):
+           test_outside=False, role="server", wake_only_server=False, prior="none", eof_guard=False, **kw):
     d = {"N": n, "Apis": set(apis), "Modes": set(modes), "LossKinds": set(kinds),
          "FixAccept": fix, "FixEvent": fix, "FixEnsure": fix, "FixProxy": fix, "Omit": omit,
-         "EventTestOutside": test_outside, "Role": role, "WakeOnlyServer": wake_only_server, "NoPoll": "@{%s}" % ", ".join('"%s"' % x for x in nopoll)}
+         "EventTestOutside": test_outside, "Role": role, "WakeOnlyServer": wake_only_server,
+         "PriorOp": prior, "EofGuardOnClose": eof_guard, "NoPoll": "@{%s}" % ", ".join('"%s"' % x for x in nopoll)}
     d.update(kw)
     return d
 
@@ -211,7 +212,14 @@ def run(c):
                  "sensitivity: accept() waiters woken only `if self.server_mode`, client transport", expect="NoStuck"),
              job("Shutdown", cfg_text(spec="FairSpec", constants=consts(["accept"], n=1 if quick else 2, role="client"),
                                       invariants=SAFETY, properties=LIVE),
-                 "repaired loops, client role, accept: safety + liveness")]
+                 "repaired loops, client role, accept: safety + liveness"),
+             job("Shutdown", cfg_text(constants=consts(["recv", "recv_stderr"], n=1, prior="shutdown_read", eof_guard=True),
+                                      invariants=SAFETY),
+                 "sensitivity: _set_closed skips the input pipes when eof_received (set by shutdown_read)", expect="NoStuck|Order"),
+             job("Shutdown", cfg_text(spec="FairSpec", constants=consts(["recv", "recv_stderr", "send", "exec_command", "recv_exit_status"],
+                                                                        n=1, prior="shutdown_read"),
+                                      invariants=SAFETY, properties=LIVE),
+                 "repaired loops after shutdown_read() on the channel: safety + liveness")]
     pred_f, pred_r = widen(g_f.cases()), widen(g_r.cases())
     if set(pred_f) != set(pred_r):
         raise Machinery("pinned and repaired models emit different case sets")
@@ -264,10 +272,13 @@ def run(c):
         sus = any("stuck" in pred_f[(1, api, m, kind, plan)] for m in modes)
         (suspects if sus else others).append((api, kind, plan, modes))
 
-    def case_of(api, mode, kind, plan, cls, n=1, role="server"):
+    def case_of(api, mode, kind, plan, cls, n=1, role="server", prior="none"):
         callers = [(api, mode)] * n
-        fn = sd.run_case if role == "server" else (lambda *a, D: sd.run_case(*a, D=D, role="client"))
-        return {"id": (api, mode, kind, plan, cls, n) + (() if role == "server" else (role,)), "fn": fn,
+        fn = sd.run_case
+        if role != "server" or prior != "none":
+            fn = (lambda *a, D: sd.run_case(*a, D=D, role=role, prior=prior))
+        return {"id": (api, mode, kind, plan, cls, n) + (() if role == "server" else (role,)) + (() if prior == "none" else (prior,)),
+                "fn": fn,
                 "args": (callers, kind, plan, cls),
                 "pred": (pred_f.get((1, api, mode, kind, plan)) if n == 1 else pred2_f.get((2, api, mode, kind, plan)),
                          pred_r.get((1, api, mode, kind, plan)) if n == 1 else None)}
@@ -299,7 +310,7 @@ def run(c):
                 chosen.append((o[0], o[1], o[2], [rnd.choice(o[3])]))
             else:
                 rest.append(o)
-        for o in rest[:25]:
+        for o in rest[:10]:
             chosen.append((o[0], o[1], o[2], [rnd.choice(o[3])]))
     else:
         chosen = [(a, k, p, m) for (a, k, p, m) in suspects + others]
@@ -322,6 +333,19 @@ def run(c):
             for plan in ("at_pclose", "at_sockclose", "at_unlink"):
                 if realisable("accept", kind, plan):
                     tasks.append([case_of("accept", "timed", kind, plan, "SRT", role="client")])
+    # channel state left behind by an earlier operation: shutdown_read() / shutdown(2) set eof_received without closing
+    # the input pipes, shutdown_write() sends EOF; a reader blocked afterwards must still be released (fixed stratum)
+    for kind in KINDS:
+        for prior in ("shutdown_read", "shutdown_both", "shutdown_write"):
+            tasks.append([case_of("recv", "blocking", kind, "before", "Transport", prior=prior)])
+        tasks.append([case_of("recv_stderr", "timed", kind, "before", "SRT", prior="shutdown_read")])
+        tasks.append([case_of("recv", "blocking", kind, "after", "Transport", prior="shutdown_read")])
+        if not quick:
+            for api in ("recv_exit_status", "send", "exec_command"):
+                tasks.append([case_of(api, "blocking", kind, "before", "Transport", prior="shutdown_read")])
+            for plan in ("at_unlink", "at_pclose", "at_sockclose"):
+                if realisable("recv", kind, plan):
+                    tasks.append([case_of("recv", "timed", kind, plan, "SRT", prior="shutdown_both")])
     # two concurrent accept callers (one notify for two waiters)
     for kind in KINDS:
         for plan in (["before"] if quick else ["before", "at_pclose", "after"]):
@@ -390,11 +414,11 @@ def run(c):
     matches = {"pinned": 0, "repaired": 0, "both": 0, "neither": 0}
     for case, obs in runner.kept:
         batch.append({"events": [norm_event(e) for e in obs["events"]], "labels": labels_of(obs),
-                      "role": obs.get("role", "client")})
+                      "role": obs.get("role", "client"), "prior": obs.get("prior", "none")})
         meta.append((case, obs))
         for i, cl in enumerate(obs["callers"]):
             key = (cl[0], cl[1], obs["kind"], obs["plan"] if obs["plan"] != "free" else cl[2], obs["cls"], len(obs["callers"]),
-                   obs.get("role", "client"))
+                   obs.get("role", "client"), obs.get("prior", "none"))
             c.case(key=key, sample=({"callers": obs["callers"], "kind": obs["kind"], "plan": obs["plan"], "class": obs["cls"],
                                      "results": obs["results"],
                                      "events": [[e["ev"], e.get("name") or e.get("kind") or e.get("w")] for e in obs["events"]]}
@@ -437,6 +461,7 @@ def run(c):
                 obs["cls"], obs["kind"], obs["D"], obs["callers"], [r["how"] for r in obs["results"]])
         elif name == "P_returns":
             who = rest[0] + ("@client" if rest[0] == "accept" and rest[2] == "client" else "")
+            who += ("" if rest[3] == "none" else "+" + rest[3])
             key = "P_returns:%s:%s:%s" % (who, rest[1], obs["kind"])
             what = "%s() %s the loss (%s; plan %s, %s, callers %r): the transport is inactive but the call has neither returned nor raised %.0f s later (re-run once with the doubled deadline)" % (
                 rest[0], {"before": "blocked before", "racing": "racing with", "after": "made after"}.get(rest[1], rest[1]),
